@@ -180,4 +180,232 @@ theorem c08_slice_refines (grow : Nat → Nat → Nat) (ho : Bool) (st : Store) 
       obtain ⟨rfl, rfl, rfl⟩ := h
       exact ⟨by simp [abs, absRes], hwf⟩
 
+/-! ## stability of returned units (repaired code) -/
+
+/-- the decoder cannot touch `o`: `o` is empty, or its array exists and is not the array of the
+decoder's buffer (a buffer without capacity has no array) -/
+def Safe (st : Store) (d : SDec) (o : Slice) : Prop :=
+  o.len = 0 ∨ (o.arr < st.arrays.length ∧ (d.buf.cap = 0 ∨ d.buf.arr ≠ o.arr))
+
+theorem read_empty (st : Store) (o : Slice) (h : o.len = 0) : st.read o = [] := by
+  simp [Store.read, h]
+
+theorem sfinish_buf (d : SDec) (m : Bool) (d' : SDec) (r : DecRes Slice) (h : sfinish true d m = (d', r)) :
+    d'.buf.cap = 0 ∨ d'.buf = d.buf := by
+  cases m with
+  | true =>
+    rw [sfinish_marker] at h
+    obtain ⟨rfl, _⟩ := Prod.mk.inj h
+    left; rfl
+  | false =>
+    by_cases he : d.expected > 0 ∧ (d.buf.len : Int) ≥ d.expected
+    · rw [sfinish_early true d he] at h
+      obtain ⟨rfl, _⟩ := Prod.mk.inj h
+      left; rfl
+    · rw [sfinish_more true d he] at h
+      obtain ⟨rfl, _⟩ := Prod.mk.inj h
+      right; rfl
+
+/-- a returned slice is the buffer or a prefix of it, and the decoder lets go of the buffer -/
+theorem sfinish_ok (d : SDec) (m : Bool) (d' : SDec) (r : Slice) (h : sfinish true d m = (d', .ok r)) :
+    d'.buf.cap = 0 ∧ r.arr = d.buf.arr ∧ r.len ≤ d.buf.len := by
+  cases m with
+  | true =>
+    rw [sfinish_marker] at h
+    simp only [Prod.mk.injEq, DecRes.ok.injEq] at h
+    obtain ⟨rfl, rfl⟩ := h
+    exact ⟨rfl, rfl, Nat.le_refl _⟩
+  | false =>
+    by_cases he : d.expected > 0 ∧ (d.buf.len : Int) ≥ d.expected
+    · rw [sfinish_early true d he] at h
+      simp only [Prod.mk.injEq, DecRes.ok.injEq] at h
+      obtain ⟨rfl, rfl⟩ := h
+      refine ⟨rfl, rfl, ?_⟩
+      simp only [Slice.upTo]; omega
+    · rw [sfinish_more true d he] at h
+      simp at h
+
+/-- one `Decode` of the repaired decoder: a safe slice stays safe and keeps its bytes; a slice
+returned by this call is safe afterwards -/
+theorem step_safe (grow : Nat → Nat → Nat) (st : Store) (d : SDec) (p : Pkt) (hwf : d.buf.WF st)
+    (st' : Store) (d' : SDec) (r : DecRes Slice) (h : sdecode grow true st d p = (st', d', r)) :
+    (∀ o, Safe st d o → Safe st' d' o ∧ st'.read o = st.read o) ∧
+    (∀ o, r = .ok o → Safe st' d' o) := by
+  have hsame : ∀ d1 : SDec, (d1.buf.cap = 0 ∨ d1.buf.arr = d.buf.arr ∧ d1.buf.cap = d.buf.cap) →
+      ∀ o, Safe st d o → Safe st d1 o ∧ st.read o = st.read o := by
+    intro d1 h1 o ho
+    refine ⟨?_, rfl⟩
+    rcases ho with ho | ⟨ho1, ho2⟩
+    · exact Or.inl ho
+    · right
+      refine ⟨ho1, ?_⟩
+      rcases h1 with h1 | ⟨h1, h2⟩
+      · exact Or.inl h1
+      · rw [h1, h2]; exact ho2
+  -- the two paths through `append` + `sfinish`
+  have hpath : ∀ (s : Slice) (dd : SDec) (st1 : Store) (b : Slice) (d1 : SDec) (r1 : DecRes Slice),
+      s.WF st → (s.cap = 0 ∨ s.arr = d.buf.arr ∧ s.cap = d.buf.cap) →
+      st.append grow s p.payload = (st1, b) → dd.buf = b → sfinish true dd p.marker = (d1, r1) →
+      (∀ o, Safe st d o → Safe st1 d1 o ∧ st1.read o = st.read o) ∧ (∀ o, r1 = .ok o → Safe st1 d1 o) := by
+    intro s dd st1 b d1 r1 hs hsd hap hdd hsf
+    obtain ⟨hb, hmono, _, _, hother, _⟩ := append_spec grow st s p.payload hs st1 b hap
+    refine ⟨?_, ?_⟩
+    · intro o ho
+      rcases ho with ho | ⟨ho1, ho2⟩
+      · exact ⟨Or.inl ho, by rw [read_empty _ _ ho, read_empty _ _ ho]⟩
+      · have hso : s.cap = 0 ∨ s.arr ≠ o.arr := by
+          rcases hsd with h | ⟨h1, h2⟩
+          · exact Or.inl h
+          · rw [h1, h2]; exact ho2
+        obtain ⟨hr, hbo⟩ := hother o ho1 hso
+        refine ⟨Or.inr ⟨by omega, ?_⟩, hr⟩
+        rcases sfinish_buf dd p.marker d1 r1 hsf with h | h
+        · exact Or.inl h
+        · rw [h, hdd]; exact hbo
+    · intro o ho
+      subst ho
+      obtain ⟨h1, h2, h3⟩ := sfinish_ok dd p.marker d1 o hsf
+      rw [hdd] at h2 h3
+      by_cases hz : o.len = 0
+      · exact Or.inl hz
+      · right
+        have hbcap : b.cap ≠ 0 := by have := hb.1; omega
+        rcases hb.2 with h | ⟨h, _⟩
+        · exact absurd h hbcap
+        · exact ⟨by rw [h2]; exact h, Or.inl h1⟩
+  rw [sdecode] at h
+  by_cases hgap : d.firstRecv = true ∧ p.seq ≠ d.lastSeq + 1
+  · rw [if_pos hgap] at h
+    simp only [Prod.mk.injEq] at h
+    obtain ⟨rfl, rfl, rfl⟩ := h
+    exact ⟨hsame _ (Or.inr ⟨rfl, rfl⟩), fun o ho => by cases ho⟩
+  rw [if_neg hgap] at h
+  dsimp only at h
+  by_cases ha : d.assembling = true
+  · have hna : ¬ ((!d.assembling) = true) := by simp [ha]
+    rw [if_neg hna] at h
+    by_cases hts : p.ts ≠ d.curTs
+    · rw [if_pos hts] at h
+      simp only [Prod.mk.injEq] at h
+      obtain ⟨rfl, rfl, rfl⟩ := h
+      exact ⟨hsame _ (Or.inr ⟨rfl, rfl⟩), fun o ho => by cases ho⟩
+    · rw [if_neg hts] at h
+      cases hap : st.append grow d.buf p.payload with
+      | mk st1 b =>
+        rw [hap] at h
+        dsimp only at h
+        cases hsf : sfinish true { d with lastSeq := p.seq, firstRecv := true, buf := b } p.marker with
+        | mk d1 r1 =>
+          rw [hsf] at h
+          simp only [Prod.mk.injEq] at h
+          obtain ⟨rfl, rfl, rfl⟩ := h
+          exact hpath d.buf _ _ b _ _ hwf (Or.inr ⟨rfl, rfl⟩) hap rfl hsf
+  · simp only [Bool.not_eq_true] at ha
+    have hna : (!d.assembling) = true := by simp [ha]
+    rw [if_pos hna] at h
+    by_cases hk : isKLVStart p.payload = true
+    · have hnk : ¬ ((!isKLVStart p.payload) = true) := by simp [hk]
+      rw [if_neg hnk] at h
+      cases hap : st.append grow (d.buf.upTo 0) p.payload with
+      | mk st1 b =>
+        rw [hap] at h
+        dsimp only at h
+        cases hds : declaredSize p.payload with
+        | none =>
+          rw [hds] at h
+          dsimp only at h
+          cases hsf : sfinish true { d with lastSeq := p.seq, firstRecv := true, curTs := p.ts, assembling := true, buf := b } p.marker with
+          | mk d1 r1 =>
+            rw [hsf] at h
+            simp only [Prod.mk.injEq] at h
+            obtain ⟨rfl, rfl, rfl⟩ := h
+            exact hpath (d.buf.upTo 0) _ _ b _ _ (upTo0_WF st _ hwf) (Or.inr ⟨rfl, rfl⟩) hap rfl hsf
+        | some s =>
+          rw [hds] at h
+          dsimp only at h
+          cases hsf : sfinish true { d with lastSeq := p.seq, firstRecv := true, curTs := p.ts, assembling := true, buf := b, expected := s } p.marker with
+          | mk d1 r1 =>
+            rw [hsf] at h
+            simp only [Prod.mk.injEq] at h
+            obtain ⟨rfl, rfl, rfl⟩ := h
+            exact hpath (d.buf.upTo 0) _ _ b _ _ (upTo0_WF st _ hwf) (Or.inr ⟨rfl, rfl⟩) hap rfl hsf
+    · have hnk : (!isKLVStart p.payload) = true := by simpa using hk
+      rw [if_pos hnk] at h
+      simp only [Prod.mk.injEq] at h
+      obtain ⟨rfl, rfl, rfl⟩ := h
+      exact ⟨hsame _ (Or.inr ⟨rfl, rfl⟩), fun o ho => by cases ho⟩
+
+theorem run_safe (grow : Nat → Nat → Nat) (ps : List Pkt) (st : Store) (d : SDec) (o : Slice)
+    (hwf : d.buf.WF st) (ho : Safe st d o) : (srun grow true st d ps).1.read o = st.read o := by
+  induction ps generalizing st d with
+  | nil => rfl
+  | cons p ps ih =>
+    cases hsd : sdecode grow true st d p with
+    | mk st1 x =>
+      obtain ⟨d1, r⟩ := x
+      obtain ⟨h1, _⟩ := step_safe grow st d p hwf st1 d1 r hsd
+      obtain ⟨hs1, hr1⟩ := h1 o ho
+      have hwf1 := (c08_slice_refines grow true st d p hwf st1 d1 r hsd).2
+      simp only [srun, hsd]
+      rw [ih st1 d1 hwf1 hs1, hr1]
+
+/-- **C08 output stability (repaired decoder, slice semantics)**: a unit returned by `Decode` reads
+the same bytes after ANY later packet history — any payloads, sequence numbers, timestamps and
+markers — under ANY growth policy of `append`. -/
+theorem c08_returned_stable (grow : Nat → Nat → Nat) (st : Store) (d : SDec) (p : Pkt) (hwf : d.buf.WF st)
+    (st1 : Store) (d1 : SDec) (u : Slice) (h : sdecode grow true st d p = (st1, d1, .ok u))
+    (later : List Pkt) : (srun grow true st1 d1 later).1.read u = st1.read u := by
+  obtain ⟨_, h2⟩ := step_safe grow st d p hwf st1 d1 _ h
+  have hwf1 := (c08_slice_refines grow true st d p hwf st1 d1 _ h).2
+  exact run_safe grow later st1 d1 u hwf1 (h2 u rfl)
+
+/-- the same over a whole history from the initial state: every unit returned along the way is
+intact at the end -/
+theorem c08_returned_stable_init (grow : Nat → Nat → Nat) (before : List Pkt) (p : Pkt) (later : List Pkt)
+    (u : Slice) :
+    let s0 := srun grow true {} {} before
+    (sdecode grow true s0.1 s0.2.1 p).2.2 = .ok u →
+    let s1 := sdecode grow true s0.1 s0.2.1 p
+    (srun grow true s1.1 s1.2.1 later).1.read u = s1.1.read u := by
+  intro s0 hu s1
+  have hwf0 : ∀ (ps : List Pkt) (st : Store) (d : SDec), d.buf.WF st →
+      (srun grow true st d ps).2.1.buf.WF (srun grow true st d ps).1 := by
+    intro ps
+    induction ps with
+    | nil => intro st d h; exact h
+    | cons q qs ih =>
+      intro st d h
+      cases hsd : sdecode grow true st d q with
+      | mk st1 x =>
+        obtain ⟨d1, r⟩ := x
+        simp only [srun, hsd]
+        exact ih st1 d1 (c08_slice_refines grow true st d q h st1 d1 r hsd).2
+  have hwf := hwf0 before {} {} (nil_WF _)
+  exact c08_returned_stable grow s0.1 s0.2.1 p hwf s1.1 s1.2.1 u
+    (by show sdecode grow true s0.1 s0.2.1 p = (s1.1, s1.2.1, .ok u); rw [← hu]) later
+
+/-! ## the original code (`handOver = false`) does alias: the recorded failure -/
+
+def exPkt (sq : UInt16) (ts : UInt32) (b : UInt8) : Pkt :=
+  { seq := sq, ts := ts, marker := true,
+    payload := [0x06, 0x0e, 0x2b, 0x34, 1, 1, 1, 1, 2, 2, 2, 2, 3, 3, 3, 3, 2, b, b] }
+
+/-- two single-packet units through the ORIGINAL decoder: the unit returned first reads differently
+after the second call (`append(d.buffer[:0], …)` wrote into the array it shares) -/
+theorem c08_original_aliases :
+    let g : Nat → Nat → Nat := fun _ n => n
+    let s1 := sdecode g false {} {} (exPkt 1 100 0x41)
+    let s2 := sdecode g false s1.1 s1.2.1 (exPkt 2 200 0x42)
+    ∃ u, s1.2.2 = .ok u ∧ s1.1.read u = (exPkt 1 100 0x41).payload ∧ s2.1.read u = (exPkt 2 200 0x42).payload := by
+  refine ⟨{ arr := 0, off := 0, len := 19, cap := 19 }, ?_, ?_, ?_⟩ <;> decide
+
+/-- the same two calls through the repaired decoder leave the first unit alone (instance of
+`c08_returned_stable`, evaluated) -/
+example :
+    let g : Nat → Nat → Nat := fun _ n => n
+    let s1 := sdecode g true {} {} (exPkt 1 100 0x41)
+    let s2 := sdecode g true s1.1 s1.2.1 (exPkt 2 200 0x42)
+    ∃ u, s1.2.2 = .ok u ∧ s2.1.read u = (exPkt 1 100 0x41).payload := by
+  refine ⟨{ arr := 0, off := 0, len := 19, cap := 19 }, ?_, ?_⟩ <;> decide
+
 end Rtsp.Codec.KlvSlice
